@@ -9,6 +9,7 @@ import (
 	"errors"
 	"flag"
 	"fmt"
+	"math"
 	"math/rand"
 	"os"
 	"sort"
@@ -225,6 +226,10 @@ func (g *gen) genUParam(forAdd bool) def.TaskUpdateParam {
 	}
 	if some(60, 40) {
 		p.Priority = option.Some(g.r.Intn(3) - 1)
+		if g.r.Intn(10) == 0 {
+			// the ends of the range: a comparison by subtraction would wrap around
+			p.Priority = option.Some([]int{math.MaxInt, math.MinInt, math.MaxInt - 1, math.MinInt + 1}[g.r.Intn(4)])
+		}
 	}
 	if some(50, 25) {
 		p.Param = option.Some(g.genMap())
